@@ -19,7 +19,8 @@ Definition locks_str (h : list lockid) (s : bool) : string :=
   "{" ++ String.concat "," (map lock_name h ++ (if s then ["sender"] else [])) ++ "}".
 
 Definition state_str (σ : state) : string :=
-  locks_str (held σ) (sender σ) ++ " tasks=" ++ nat_str (tasks σ).
+  locks_str (held σ) (sender σ) ++ " tasks=" ++ nat_str (tasks σ) ++
+  (if clean σ then "" else " (an enclosing frame owns a task)").
 
 Definition act_str (a : act) : string :=
   match a with
@@ -38,6 +39,7 @@ Definition viol_str (v : violation) : string :=
   | VTransportNoSender => "outbound transport operation without the sender lock"
   | VRebindHeld _ => "variable that names a held mutex is re-assigned"
   | VLockOrder l => "lock order: this mutex must be acquired before " ++ lock_name l ++ ", which is already held"
+  | VWaitOwnTask => "tasks.Wait() reached by a thread that still owns a task obligation: it waits for itself"
   | VTasksUnderflow => "tasks.Done / hand-over of a task obligation the function does not own"
   | VPrecondition _ => "contract-only function called in a state its contract does not allow"
   | VIllFormed => "ill-formed program"
@@ -110,7 +112,10 @@ Fixpoint dchk (s : stmt) (σ : state) (tr : list nat) : dres :=
       | None => DFail "call of an undefined function" tr
       | Some fd =>
           match find_case fd σ with
-          | None => DFail ("call of " ++ f_name fd ++ " in state " ++ state_str σ ++ ": not an entry state of its contract") tr
+          | None => DFail ("call of " ++ f_name fd ++ " in state " ++ state_str σ ++ ": not an entry state of its contract" ++
+                           (if existsb (fun c => list_eqb (c_held c) (held σ) && Bool.eqb (c_sender c) (sender σ) && Nat.eqb (c_need c) 0) (f_cases fd)
+                            then " (the callee reaches tasks.Wait(), which waits for every task of the connection: the calling thread must not own a task obligation -- it would wait for itself)"
+                            else "")) tr
           | Some c =>
               match dbind (fun e => dchk (branch (e_out e) s0 s1) (after σ e) tr) (c_exits c) with
               | DFail m t => DFail m t
@@ -124,7 +129,7 @@ Fixpoint dchk (s : stmt) (σ : state) (tr : list nat) : dres :=
       | Some fd =>
           match spawn_need fd with
           | None => DFail ("go " ++ f_name fd ++ ": the contract of a goroutine body must have one case without locks") tr
-          | Some n => if Nat.leb n (tasks σ) then DOk [(CNorm (mkS (held σ) (sender σ) (tasks σ - n)), tr)]
+          | Some n => if Nat.leb n (tasks σ) then DOk [(CNorm (mkS4 (held σ) (sender σ) (tasks σ - n) (clean σ)), tr)]
                       else DFail ("go " ++ f_name fd ++ ": it expects a task obligation (tasks.Add) the spawner does not own") tr
           end
       end
@@ -151,7 +156,13 @@ Definition diag_fn (fd : fdef) : list string :=
    then [f_name fd ++ ": exported/handler/goroutine function with a contract that holds something at entry or exit"] else []) ++
   match f_body fd with
   | None => []
-  | Some b => flat_map (diag_case fd b) (f_cases fd)
+  | Some b =>
+      (* each contract case usually comes twice (clean / not clean): report the clean ones, the
+         others only if those are fine *)
+      match flat_map (diag_case fd b) (filter c_clean (f_cases fd)) with
+      | [] => flat_map (diag_case fd b) (filter (fun c => negb (c_clean c)) (f_cases fd))
+      | l => l
+      end
   end.
 End D.
 
